@@ -70,6 +70,8 @@ ASSUMPTIONS = [
     "complex-valued decompositions (Complex*/Hilbert* classes on complex results, POP) are unique up to one "
     "unit-modulus factor per mode shared by component and score; that factor is estimated from the components "
     "and removed before comparing; amplitudes are compared without alignment",
+    "POP (eigenvectors of a non-normal matrix) is only compared when eps*cond(eigenvector basis)*cond(regression)/gap "
+    "is below 1e-11; otherwise the case is ambiguous",
     "POP modes of equal norm (conjugate pairs) are put in a canonical order (positive imaginary eigenvalue first) "
     "before comparison because the code orders them by an argsort over tied norms",
     "sample permutation is not asserted for ExtendedEOF, OPA, POP, Hilbert variants (statement) nor for "
@@ -692,6 +694,9 @@ def read_all(case, fitted, fields, pres_list, data=None, want_transform=True):
             res["spectra"][nm] = _mode_first(r)
     if zoo.kind(cls) == "cross":  # guard only: the spectrum of the SVD that defines the modes
         res["guard"] = np.asarray(m.data["singular_values"].values, dtype=float)
+    if cls == "POP":  # guard only: conditioning of the regression that defines the feedback matrix
+        Z = np.asarray(m.data["input_data"].values)
+        res["pop_condX"] = float(np.linalg.cond(Z[:-1])) if Z.ndim == 2 and Z.shape[0] > 2 else 1.0
     comps = fitted.components()
     scores = fitted.scores()
     if len(comps) != len(fields) or len(scores) != len(fields):
@@ -742,7 +747,7 @@ def pop_canonical_order(res):
                 return None  # more than a conjugate pair share a norm: order not unique
         i = j
     o = np.asarray(order)
-    out = {"spectra": {k: v[o] for k, v in res["spectra"].items()}, "comps": [c[..., o] for c in res["comps"]], "scores": [s[..., o] for s in res["scores"]], "extra_feat": {}, "extra_samp": {k: [x[..., o] for x in v] for k, v in res["extra_samp"].items()}}
+    out = {"spectra": {k: v[o] for k, v in res["spectra"].items()}, "comps": [c[..., o] for c in res["comps"]], "scores": [s[..., o] for s in res["scores"]], "extra_feat": {}, "extra_samp": {k: [x[..., o] for x in v] for k, v in res["extra_samp"].items()}, "pop_condX": res.get("pop_condX", 1.0)}
     return out
 
 
@@ -753,8 +758,16 @@ def uniqueness_guard(case, res, K, aligned):
     if cls == "POP":
         lam = np.asarray(sp["eigenvalues"])
         d = np.abs(lam[:, None] - lam[None, :]) + np.eye(lam.size) * 1e9
-        if d.min() < GAP * max(np.abs(lam).max(), 1e-300):
+        gap = d.min() / max(np.abs(lam).max(), 1e-300)
+        if gap < GAP:
             return "POP eigenvalues closer than the resolvable gap"
+        # eigenvectors of a non-normal matrix: error ~ eps * cond(eigenvector basis) * cond(regression) / gap.
+        # Calibration (20 POP cases of the thorough tier): observed error/tol <= 0.05 * this estimate / 1e-9.
+        P = res["comps"][0].reshape(res["comps"][0].shape[0], -1)
+        kappa = float(np.linalg.cond(P / np.maximum(np.linalg.norm(P, axis=0), 1e-300)))
+        est = kappa * res.get("pop_condX", 1.0) / gap * 1e-16
+        if est > 1e-2 * TOL:
+            return f"POP eigenvector problem too ill-conditioned for a 1e-9 comparison (estimated error {est:.1e})"
         return None
     key = {"eof": "singular_values", "cross": "squared_covariance_fraction", "multi": "explained_covariance", "boot": None}.get(group_of(cls), "singular_values")
     if cls == "SparsePCA":
